@@ -120,10 +120,14 @@ func RunThirdParty(behs [][]Step, tr *Trace, env Env, sum *Summary) {
 				}
 			}
 			tr.Emit(map[string]any{"ev": "Reset"})
-			burstOK := true
+			burstOK, cut := true, false
+			burstBad := []string{} // what became of the burst requests that were not served
 			var burst []*tpReq
 			for si, o := range beh {
 				op, r := o.Str("op"), o.Str("r")
+				if cut {
+					break
+				}
 				sum.Counters["op."+op]++
 				done := true
 				switch op {
@@ -150,6 +154,13 @@ func RunThirdParty(behs [][]Step, tr *Trace, env Env, sum *Summary) {
 					}
 				case "Answer":
 					q := reqs[r]
+					if time.Since(q.since) > 6*time.Second {
+						// the steps before this one took so long (a loaded machine) that the code's own patience (10 s) may pass before the
+						// answer is in: what the request becomes is then a matter of timing, not of the specification; the history ends here
+						sum.Counters["histories cut short: too slow to judge an answer"]++
+						cut = true
+						break
+					}
 					aid := fmt.Sprintf("%08x", ids[r])
 					q.want = "answer-for-" + r
 					send(map[string]any{"Head": map[string]any{"Type": "Agent"}, "Body": map[string]any{"Type": "AgentResponse", "RandID": randOf[aid], "Response": base64.StdEncoding.EncodeToString([]byte(q.want))}})
@@ -187,18 +198,30 @@ func RunThirdParty(behs [][]Step, tr *Trace, env Env, sum *Summary) {
 						request(uint32(0x7100+g), q)
 					}
 					for g := range burst {
-						if !waitFrame(fmt.Sprintf("%08x", 0x7100+g), 5*time.Second) {
+						if !waitFrame(fmt.Sprintf("%08x", 0x7100+g), 9*time.Second) {
 							burstOK = false // a request the service was never handed
+							burstBad = append(burstBad, "never-handed-to-the-service")
 						}
 					}
 				case "BurstAnswered":
+					// the code's own patience with a silent service is 10 s: an answer this harness gets to send later than 6 s after the
+					// request (a loaded machine) may find the request given up, which is allowed; such a request is not judged
+					late := map[*tpReq]bool{}
+					for _, q := range burst {
+						late[q] = time.Since(q.since) > 6*time.Second
+					}
 					for g, q := range burst {
 						send(map[string]any{"Head": map[string]any{"Type": "Agent"}, "Body": map[string]any{"Type": "AgentResponse", "RandID": randOf[fmt.Sprintf("%08x", 0x7100+g)], "Response": base64.StdEncoding.EncodeToString([]byte(q.want))}})
 					}
 					for _, q := range burst {
-						settle(q, 5*time.Second)
+						settle(q, patience)
 						if st := stateOf(q); st != "answer" {
+							if late[q] && st == "decoy" {
+								sum.Counters["burst answers sent too late to judge"]++
+								continue
+							}
 							burstOK = false
+							burstBad = append(burstBad, st)
 						}
 					}
 					burst = nil
@@ -223,7 +246,10 @@ func RunThirdParty(behs [][]Step, tr *Trace, env Env, sum *Summary) {
 				if probe.Timeout || probe.Panic != "" {
 					alive = false
 				}
-				tr.Emit(map[string]any{"ev": op, "r": r, "n": o.Int("n"), "st": map[string]any{"state": state, "burstok": burstOK, "alive": alive, "done": done}})
+				if cut {
+					break
+				}
+				tr.Emit(map[string]any{"ev": op, "r": r, "n": o.Int("n"), "st": map[string]any{"state": state, "burstok": burstOK, "alive": alive, "done": done}, "burstbad": burstBad})
 			}
 			if bi < 2 {
 				sum.Samples = append(sum.Samples, beh)
